@@ -139,6 +139,7 @@ type Object struct {
 	init  Value
 	Glob  *ssa.Global
 	Fresh bool // allocated by a callee with a contract (result object)
+	zeroInit Value // the zero value it was allocated with (locals); still the contents while nothing has been stored
 }
 
 func (o *Object) String() string {
